@@ -68,9 +68,11 @@ def _run_job(args):
     res = {"label": label, "func": func, "params": params, "failures": [], "known": [], "unsupported": [],
            "witnesses": {}, "samples": [], "stats": {}, "error": None}
     E = Engine(regions=regions_for(known, label), time_budget=budget)
+    del core.FP_LOG[:]
 
     def on_alarm(sig, frm):
         raise Budget("hard wall-clock limit")
+    mutdir = None
     try:
         signal.signal(signal.SIGALRM, on_alarm)
         signal.alarm(int(budget * 1.5) + 30)
@@ -78,6 +80,8 @@ def _run_job(args):
         fn = getattr(mod, func)
         if mutants:
             params = dict(params, _mutants=mutants)
+            mutdir = _mutant_copy(mutants)
+            os.environ["VERIF_REAL_REPO"] = mutdir
         try:
             E.explore(lambda e: fn(e, **params))
         except Budget as ex:
@@ -90,12 +94,50 @@ def _run_job(args):
         signal.alarm(0)
     res["failures"] = [f.as_dict() for f in E.failures.values()]
     res["known"] = [f.as_dict() for f in E.known_hits.values()]
+    if mutdir:
+        # canary run: a kill only counts if the counterexample reproduces on the mutated package
+        res["replayed"] = []
+        try:
+            for f in res["failures"][:4]:
+                d = tempfile.mkdtemp(prefix="verif-canary-")
+                try:
+                    p0 = {k: v for k, v in params.items() if k != "_mutants"}
+                    if mod.replay(p0, f["model"], f["notes"], d, 0):
+                        res["replayed"].append(f["obligation"])
+                        break
+                except Exception as ex:  # noqa: BLE001
+                    res["replayed"].append("replay crashed (%s) - counts as behavioural difference" % type(ex).__name__)
+                    break
+                finally:
+                    shutil.rmtree(d, ignore_errors=True)
+        finally:
+            os.environ.pop("VERIF_REAL_REPO", None)
+            shutil.rmtree(mutdir, ignore_errors=True)
     res["unsupported"] = list(E.unsupported)
     res["witnesses"] = dict(E.witnesses)
     res["samples"] = E.samples
     res["stats"] = E.stats()
     res["wall_s"] = round(time.time() - t0, 2)
+    res["fp_log"] = sorted(set(core.FP_LOG), key=repr)
     return res
+
+
+def _mutant_copy(mutants):
+    """Scratch copy of the package with the textual mutants applied (for replays of canary runs)."""
+    d = tempfile.mkdtemp(prefix="verif-mutant-")
+    shutil.copytree(loader.PKG, os.path.join(d, "torrentfile"), ignore=shutil.ignore_patterns("__pycache__"))
+    for m, reps in mutants.items():
+        p = os.path.join(d, "torrentfile", m + ".py")
+        with open(p, encoding="utf-8") as f:
+            src = f.read()
+        for old, new in reps:
+            if src.count(old) < 1:
+                shutil.rmtree(d, ignore_errors=True)
+                raise loader.MutantNotApplicable("%s: pattern not found" % m)
+            src = src.replace(old, new)
+        with open(p, "w", encoding="utf-8") as f:
+            f.write(src)
+    return d
 
 
 def run_jobs(modname, jobs, known, budget, workers, mutants=None):
@@ -172,6 +214,11 @@ def _main(mod, modname, prop, tier, seed, only, workdir, t0, no_canaries):
         except Exception as ex:  # noqa: BLE001
             inconclusive.append("extra crashed: %s: %s %s" % (type(ex).__name__, ex, traceback.format_exc()[-800:]))
         results += extra.get("jobs", [])
+    if hasattr(mod, "post") and not only:
+        try:
+            results += mod.post(results, tier) or []
+        except Exception as ex:  # noqa: BLE001
+            inconclusive.append("post crashed: %s: %s %s" % (type(ex).__name__, ex, traceback.format_exc()[-800:]))
     results.sort(key=lambda r: r["label"])
     # 3. replay
     violations, known_lines, replays = [], [], 0
@@ -238,11 +285,7 @@ def _main(mod, modname, prop, tier, seed, only, workdir, t0, no_canaries):
             if any(r.get("error", "") and r["error"].startswith("mutant-not-applicable") for r in rs):
                 canary_res.append({"canary": label, "status": "not-applicable (source changed)"})
                 continue
-            killed = False
-            for r in rs:
-                for f in r["failures"]:
-                    killed = True
-                    break
+            killed = any(r.get("replayed") for r in rs)
             canary_res.append({"canary": label, "status": "killed" if killed else "SURVIVED"})
             if not killed:
                 inconclusive.append("canary survived (harness insensitive): %s" % label)
